@@ -140,6 +140,37 @@ func VerifC18Expr() {
 	nd.Cover("evaluated")
 }
 
+// C18: an expression whose whole result is the empty string is a result like any other: the
+// expression text is gone after the evaluation stage and the field does not receive it
+func VerifC18EmptyResult() {
+	// concrete operands: the engine asks the real expr-lang (symbolic expression text is an uninterpreted function)
+	dv := []string{"1", "5", "8"}[nd.Choose(3)]
+	cfg := &vCfg{keys: []string{"k"}, vals: []any{dv}}
+	tag := "#{${k}>9?'x':''},required=false"
+	if nd.Bool() {
+		tag = "#{${k}<9?'':'x'},required=false"
+	}
+	reg := support.DefaultDefinitionRegistry()
+	va := NewValueAwarePostProcessors().(*valueAwarePostProcessors)
+	h := &vExprHolder{}
+	nd.Assert(va.PostProcessDefinitionRegistry(reg, h, "h") == nil, "scan ok")
+	meta := reg.GetMetaByName("h")
+	prop := component_definition.NewProperty(meta.Fields[0], component_definition.PropertyTypeConfiguration, "value", tag)
+	props := []*component_definition.Property{prop}
+	cq := vQuoteProc(cfg)
+	ex := NewExpressionTagAwarePostProcessors()
+	for _, p := range []container.InstantiationAwareComponentPostProcessor{cq, ex, va} {
+		_, err := p.PostProcessProperties(props, h, "h")
+		nd.Assert(err == nil, "C18: resolving, evaluating and binding a well-formed expression succeeds")
+		if err != nil {
+			return
+		}
+	}
+	nd.Assert(prop.TagVal == "", "C18: the expression is evaluated on the text with all placeholders substituted (an empty result is a result)")
+	nd.Assert(h.F == "", "C18: the field receives the expression's result")
+	nd.Cover("expression with an empty result")
+}
+
 type vValidHolder struct {
 	F string `value:"x"`
 }
